@@ -12,6 +12,13 @@ def fuzz(name, target, fuzztime, workers=8, timeout=None):
     return {"name": name, "kind": "fuzz", "target": target, "thorough": t}
 
 PROPS = {
+    "C07": {
+        "level": "exploration",
+        "jobs": [
+            rapid("restore", "^TestC07$", {"checks": 20, "steps": 25, "shards": 8, "timeout": 900, "shrinktime": "30s"},
+                  {"checks": 300, "steps": 45, "shards": 14, "timeout": 5000, "shrinktime": "120s"}),
+        ],
+    },
     "C04": {
         "level": "exploration",
         "jobs": [
